@@ -3,6 +3,11 @@
 
 package node
 
+import "github.com/youzan/ZanRedisDB/raft"
+
 // verifPoint marks a named point on the persist / apply / snapshot / restart path.
 // Without the build tag `verif` it is an empty, inlineable stub.
 func verifPoint(name string) {}
+
+// verifReady tells the hooks what kind of Ready processReady is working on.
+func verifReady(isNewLeader bool, rd *raft.Ready) {}
